@@ -85,7 +85,7 @@ pub enum Tmpl {
     /// free a base-order part of the `i`-th held block
     PutPart { i: usize, part: usize, class: u8, local: Option<usize> },
     Drain,
-    Change { id: Option<usize>, mclass: Option<u8>, mfree: usize, cclass: Option<u8>, offline: bool },
+    Change { id: Option<usize>, mclass: Option<u8>, mfree: usize, cclass: Option<u8>, offline: bool, online: bool },
     LGet { start: usize, order: usize },
     LPutHeld { i: usize },
 }
@@ -282,6 +282,9 @@ pub fn run(sc: &Scenario, strat: &Strategy, crash_every: usize) -> Option<RunRes
     };
     let mut violations: Vec<Violation> = vec![];
     let mut known: Vec<String> = vec![];
+    // a concurrent change_tree(Online): outside the interleaving model (the closure's reads of the lower counters
+    // happen inside the update loop), so such runs are checked by the oracles only
+    let has_online = sc.calls.iter().flatten().any(|c| matches!(c, Tmpl::Change { online: true, .. }));
     let mut choices: Vec<(Vec<usize>, usize)> = vec![];
     let mut solo_steps = None;
     let mut crash_points = 0;
@@ -361,12 +364,12 @@ pub fn run(sc: &Scenario, strat: &Strategy, crash_every: usize) -> Option<RunRes
                             )
                         }
                         Tmpl::Drain => ("drain".into(), Box::new(move || { alloc.drain(); "ok".to_string() })),
-                        Tmpl::Change { id, mclass, mfree, cclass, offline } => (
-                            format!("change {} {} {mfree} {} {}", opt(id), opt(mclass.map(|c| c as usize)), opt(cclass.map(|c| c as usize)), if offline { "off" } else { "-" }),
+                        Tmpl::Change { id, mclass, mfree, cclass, offline, online } => (
+                            format!("change {} {} {mfree} {} {}", opt(id), opt(mclass.map(|c| c as usize)), opt(cclass.map(|c| c as usize)), if offline { "off" } else if online { "on" } else { "-" }),
                             Box::new(move || {
                                 match alloc.change_tree(
                                     TreeMatch { id: id.map(TreeId), class: mclass.map(Class), free: mfree },
-                                    TreeChange { class: cclass.map(Class), operation: offline.then_some(TreeOperation::Offline) },
+                                    TreeChange { class: cclass.map(Class), operation: if offline { Some(TreeOperation::Offline) } else if online { Some(TreeOperation::Online) } else { None } },
                                 ) {
                                     Ok(()) => "ok".to_string(),
                                     Err(e) => err_str(e).to_string(),
@@ -591,6 +594,10 @@ pub fn run(sc: &Scenario, strat: &Strategy, crash_every: usize) -> Option<RunRes
                 if res.starts_with("panic") {
                     if res.contains("Exceeding retries") {
                         known.push(format!("K1 {res} (thread {t}, call `{text}`)"));
+                    } else if has_online && ws.first() == Some(&"put") && res.trim_start_matches("panic").trim().parse::<usize>().is_ok_and(|v| v > TREE_FRAMES) {
+                        // K2: the counter assertion of Tree::put fails because change_tree(Online) counted the
+                        // frames of this free (already visible in the lower counters) a first time
+                        known.push(format!("K2 {res} = tree counter beyond TREE_FRAMES in Tree::put while change_tree(Online) is in flight (thread {t}, call `{text}`)"));
                     } else {
                         violations.push(Violation { prop: "C03", msg: format!("thread {t}: `{text}` panicked: {res}"), line: i });
                     }
@@ -658,15 +665,40 @@ pub fn run(sc: &Scenario, strat: &Strategy, crash_every: usize) -> Option<RunRes
                 Ok(s) if (s.free_frames, s.free_huge, s.free_trees) == want => {}
                 _ => violations.push(Violation { prop: "C04", msg: format!("quiescent stats {:?} vs allocation state {want:?}", st.as_ref().map(|s| (s.free_frames, s.free_huge, s.free_trees))), line: events.len() }),
             }
-            let offline = events.iter().any(|e| matches!(e, Event::CallStart { text, .. } if text.starts_with("change") && text.ends_with("off")));
+            let mut offline = events.iter().any(|e| matches!(e, Event::CallStart { text, .. } if text.starts_with("change") && text.ends_with("off")));
+            if has_online {
+                // the setup took a tree offline; it is online again only if the concurrent Online call succeeded
+                let mut cur_on: Vec<bool> = vec![false; n];
+                let mut online_ok = false;
+                for e in &events {
+                    match e {
+                        Event::CallStart { t, text } => cur_on[*t] = text.starts_with("change") && text.ends_with("on"),
+                        Event::Ret { t, res } => {
+                            if cur_on[*t] && res == "ok" {
+                                online_ok = true;
+                            }
+                            cur_on[*t] = false;
+                        }
+                        _ => {}
+                    }
+                }
+                offline = offline || !online_ok;
+            }
             if !offline {
                 let ts = guarded(|| inst.alloc.tree_stats());
                 match &ts {
                     Ok(t) if t.free_frames == want.0 => {}
+                    Ok(t) if has_online && t.free_frames > want.0 => {
+                        // K3: the same race as K2 without the overflow: the frames of the racing free are counted twice
+                        known.push(format!("K3 tree counters over-report after put raced with change_tree(Online): fast free count {} vs exact {}{}", t.free_frames, want.0,
+                            if guarded(|| inst.alloc.validate()).is_err() { "; validate() fails" } else { "" }));
+                    }
                     _ => violations.push(Violation { prop: "C04", msg: format!("quiescent fast free count {:?} vs exact {}", ts.as_ref().map(|t| t.free_frames), want.0), line: events.len() }),
                 }
-                if let Err(p) = guarded(|| inst.alloc.validate()) {
-                    violations.push(Violation { prop: "C04", msg: format!("validate() fails at the quiescent end: {p}"), line: events.len() });
+                if !known.iter().any(|k| k.starts_with("K3")) {
+                    if let Err(p) = guarded(|| inst.alloc.validate()) {
+                        violations.push(Violation { prop: "C04", msg: format!("validate() fails at the quiescent end: {p}"), line: events.len() });
+                    }
                 }
             }
         }
@@ -707,6 +739,10 @@ pub fn run(sc: &Scenario, strat: &Strategy, crash_every: usize) -> Option<RunRes
     }
     lines.push(("cend".into(), "ok".into()));
     lines.push(("hash".into(), format!("hash {:x}", digest(&inst.words()))));
+    if has_online {
+        // not replayed on the model (see `has_online`)
+        lines.clear();
+    }
     if let Some(s) = solo_steps {
         // C21: the accesses the thread needed alone must lie within the bound proved for the model (`apiB`)
         lines.push((format!("solocheck {s}"), "within".into()));
@@ -723,12 +759,12 @@ impl Tmpl {
             Tmpl::PutHeld { i, class, local } => format!("putheld {i} {class} {}", opt(*local)),
             Tmpl::PutPart { i, part, class, local } => format!("putpart {i} {part} {class} {}", opt(*local)),
             Tmpl::Drain => "drain".into(),
-            Tmpl::Change { id, mclass, mfree, cclass, offline } => format!(
+            Tmpl::Change { id, mclass, mfree, cclass, offline, online } => format!(
                 "change {} {} {mfree} {} {}",
                 opt(*id),
                 opt(mclass.map(|c| c as usize)),
                 opt(cclass.map(|c| c as usize)),
-                *offline as u8
+                if *online { 2 } else { *offline as u8 }
             ),
             Tmpl::LGet { start, order } => format!("lget {start} {order}"),
             Tmpl::LPutHeld { i } => format!("lputheld {i}"),
@@ -748,6 +784,7 @@ impl Tmpl {
                 mfree: c.parse().ok()?,
                 cclass: o(d)?.map(|x| x as u8),
                 offline: *e == "1",
+                online: *e == "2",
             },
             ["lget", a, b] => Tmpl::LGet { start: a.parse().ok()?, order: b.parse().ok()? },
             ["lputheld", a] => Tmpl::LPutHeld { i: a.parse().ok()? },
@@ -854,6 +891,25 @@ pub fn gen_scenario(rng: &mut Rng, kind: usize) -> Scenario {
         let n = classes.iter().find(|x| x.0 == c).map(|x| x.1).unwrap_or(0);
         if n == 0 || rng.chance(1, 3) { None } else { Some(rng.below(n)) }
     };
+    if kind == 6 || kind == 7 {
+        // a free into an offline tree racing with change_tree(Online): kind 6 = the tree is otherwise free (known
+        // finding K2: the counter assertion fires), kind 7 = another frame of it stays allocated (K3: it over-reports)
+        let c = classes[0].0;
+        sc.cfg.frames = 2 * TREE_FRAMES;
+        let a = TREE_FRAMES + rng.below(TREE_FRAMES);
+        sc.setup.push(format!("get 0 {c} - {a}"));
+        if kind == 7 {
+            let b = TREE_FRAMES + (a - TREE_FRAMES + 1 + rng.below(TREE_FRAMES - 1)) % TREE_FRAMES;
+            sc.setup.push(format!("get 0 {c} - {b}"));
+        }
+        sc.setup.push("change 1 - 0 - off".into());
+        sc.held = vec![vec![(a, 0)], vec![]];
+        sc.calls = vec![
+            vec![Tmpl::PutHeld { i: 0, class: c, local: None }],
+            vec![Tmpl::Change { id: Some(1), mclass: None, mfree: 0, cclass: None, offline: false, online: true }],
+        ];
+        return sc;
+    }
     match kind % 6 {
         0 => {
             // multi-row allocations racing in one huge frame (orders 7, 8)
@@ -923,7 +979,7 @@ pub fn gen_scenario(rng: &mut Rng, kind: usize) -> Scenario {
                     let c = rc(rng);
                     match rng.below(10) {
                         0 => sc.calls[t].push(Tmpl::Drain),
-                        1 => sc.calls[t].push(Tmpl::Change { id: Some(rng.below(sc.cfg.ntrees())), mclass: None, mfree: 0, cclass: Some(rc(rng)), offline: rng.chance(1, 3) }),
+                        1 => sc.calls[t].push(Tmpl::Change { id: Some(rng.below(sc.cfg.ntrees())), mclass: None, mfree: 0, cclass: Some(rc(rng)), offline: rng.chance(1, 3), online: false }),
                         2 | 3 => sc.calls[t].push(Tmpl::PutHeld { i: rng.below(3), class: c, local: rl(rng, c) }),
                         4 => sc.calls[t].push(Tmpl::PutPart { i: rng.below(3), part: rng.below(8), class: c, local: rl(rng, c) }),
                         5 => {
@@ -982,7 +1038,9 @@ pub fn explore(sc: &Scenario, ex: &mut Explore, bound: usize, max_dfs: usize, ra
             }
         }
         for k in r.known {
-            if ex.known.len() < 20 {
+            // at most ten instances per finding
+            let id = k.split_whitespace().next().unwrap_or("").to_string();
+            if ex.known.iter().filter(|x| x.starts_with(&id)).count() < 10 {
                 ex.known.push(k);
             }
         }
